@@ -9,6 +9,7 @@ import JominiModel.Proofs.TextTapeFaithful
 import JominiModel.Proofs.TextTapeTotal
 import JominiModel.Proofs.TextTapeFaithful2
 import JominiModel.Proofs.TextTapeFaithful3
+import JominiModel.Proofs.TextTapeBlank
 import JominiModel.Generated.Tables
 /-
 C01 — Text tape mirrors the document's structure regardless of layout.
@@ -74,18 +75,50 @@ theorem C01_parse_total (input : Bytes) :
     (∃ T b, parse input = .ok T b) ∨ (∃ e, parse input = .err e) :=
   parse_total input
 
-/-
-Full statement (DESIGN §8 C01): `step st (w ++ d) = step st d` at EVERY point where the code
-calls `skip_ws_t`: (1) loop head, (2) after `{` in Key, (3) after `{` in ParseOpen, (4) after the
-first scalar of a container, (5) inside parameter definitions.
-Proved: (1), (2), (3).  Missing: (4) and (5) — there the blanks follow a scalar that was just
-pushed, so the tapes differ in that scalar's recorded position and the statement needs the
-position-erasing simulation of `C01_layout_independent` (not proved yet).
--/
-/-- (1) one iteration of the main loop is invariant under blanks in front of the cursor. -/
-theorem C01_step_blank_partial (w d : Bytes) (hw : Blank w) (n : Nat) (st : St) :
-    step n st (w ++ d) = step n st d :=
-  step_blank hw n st d
+/-- C01_step_blank, at full strength: blanks (space, tab, CR/LF, `;`, comments, in any mixture)
+are invisible at EVERY point where the code calls `skip_ws_t`:
+(1) the loop head; (2) behind `{` in Key; (3) behind `{` in ParseOpen (same result, or — non-empty
+inner container, the `{` is left for ArrayValue — the same new state with the respective cursor);
+(4) behind the first scalar of a container; (5) inside parameter definitions, behind `[[name]`
+and behind the key / value that follows.  At (4) and (5) the blanks follow a scalar that has just
+been pushed, so the results agree up to that scalar's recorded position (`Step.erase`); they
+are stated where a separator is lexically permitted (an unquoted scalar is followed by a
+boundary byte with and without the blanks). -/
+theorem C01_step_blank (w : Bytes) (hw : Blank w) :
+    (∀ n st d, step n st (w ++ d) = step n st d) ∧
+    (∀ st rest, stepKey st (123 :: (w ++ rest)) = stepKey st (123 :: rest)) ∧
+    (∀ st rest, stepParseOpen st (123 :: (w ++ rest)) = stepParseOpen st (123 :: rest) ∨
+      ∃ st', stepParseOpen st (123 :: (w ++ rest)) = .cont st' (123 :: (w ++ rest)) ∧
+             stepParseOpen st (123 :: rest) = .cont st' (123 :: rest)) ∧
+    (∀ st (s : Scal) r, s.Valid → (s.quoted = false → StartsBoundary r) →
+      (s.quoted = false → StartsBoundary (w ++ r)) →
+      (stepParseOpen st (s.text ++ (w ++ r))).erase = (stepParseOpen st (s.text ++ r)).erase) ∧
+    (∀ mixed tape parent (isU : Bool) name Y, ParamName name →
+      (paramDefBody mixed tape parent
+        (91 :: 91 :: ((if isU then [33] else []) ++ (name ++ 93 :: (w ++ Y))))).erase =
+      (paramDefBody mixed tape parent
+        (91 :: 91 :: ((if isU then [33] else []) ++ (name ++ 93 :: Y)))).erase) ∧
+    (∀ mixed tape parent (isU : Bool) name (s : Scal) w1 R, ParamName name → s.Valid → s.quoted = false →
+      Blank w1 → StartsBoundary R → StartsBoundary (w ++ R) →
+      (paramDefBody mixed tape parent
+        (91 :: 91 :: ((if isU then [33] else []) ++ (name ++ 93 :: (w1 ++ (s.text ++ (w ++ R))))))).erase =
+      (paramDefBody mixed tape parent
+        (91 :: 91 :: ((if isU then [33] else []) ++ (name ++ 93 :: (w1 ++ (s.text ++ R)))))).erase) :=
+  ⟨fun n st d => step_blank hw n st d,
+   fun st rest => stepKey_open_blank hw st rest,
+   fun st rest => stepParseOpen_open_blank hw st rest,
+   fun _ _ _ hs hr hwr => stepParseOpen_first_scalar_blank hs hw hr hwr,
+   fun mixed tape parent isU _ Y hn => paramDefBody_name_blank mixed tape parent isU hn hw Y,
+   fun mixed tape parent isU _ _ _ _ hn hs hq hw1 hR hwR =>
+     paramDefBody_kv_blank mixed tape parent isU hn hs hq hw1 hw hR hwR⟩
+
+/-- the hypotheses of sites (4)/(5) are satisfiable: scalar `ab`, name `x`, rest `}`… -/
+example : (Scal.mk false [97, 98]).Valid ∧ ParamName [120] ∧ StartsBoundary [125] ∧
+    StartsBoundary ([32] ++ [125]) :=
+  ⟨by simp only [Scal.Valid, Bool.false_eq_true, if_false]
+      exact ⟨by decide +kernel, 97, [98], rfl, by decide +kernel, by decide, by decide⟩,
+   ⟨by simp, by decide +kernel⟩, .inr ⟨125, [], rfl, by decide +kernel⟩,
+   .inr ⟨32, [125], rfl, by decide +kernel⟩⟩
 
 /-- (2) Key state, blanks behind a `{` (ghost object / header). -/
 theorem C01_step_blank_key_open (w rest : Bytes) (hw : Blank w) (st : St) :
@@ -113,10 +146,13 @@ depth as values (`key op { fields }`, incl. `?=` / `!=` on the first field); fra
 are scalars, empty containers `{}`, objects, and arrays of scalars / objects / arrays / empty
 containers, nested to any depth (the structure of save files), fields written with or without
 the optional `=` before `{` (`a={..}` and `a{..}` have the same content), ghost `{}` in key
-position.  Missing fragments: ghost `{}` at the start of a container, headers (`rgb {..}`),
-parameter blocks, object→array mixed containers, `@[..]` variables and unquoted scalars starting
-with `@`, BOM in front of a document (C01_bom covers it separately).  These are decided by the
-correspondence run and the layout/faithfulness oracles.
+position and at the start of a container, headers (`rgb {..}`) in field-value position, a BOM in
+front, `@variables` and `@[..]` as keys, values and array elements, object→array mixed
+containers (fields followed by bare scalars), parameter blocks in key position (value and object
+form).  Missing: a parameter block as the FIRST thing inside a container; a header, an implicit
+`=` or a ghost on the FIRST field of a nested container; containers inside the array part of a
+mixed container; operators inside arrays.  These are decided by the correspondence run and the
+layout/faithfulness oracles.
 -/
 /-- fragment 1 of C01_faithful: a flat document under ANY valid layout parses to a tape that is,
 up to the scalar positions, exactly the document's keys, operators and scalar bytes (quoted vs
@@ -178,6 +214,122 @@ theorem C01_layout_independent_tree_partial (fs fs' : JFields) (gt gt' : Bytes)
     ∃ T T', parse (jrenderF fs ++ gt) = .ok T false ∧ parse (jrenderF fs' ++ gt') = .ok T' false ∧
       T.map Tok.erase = T'.map Tok.erase :=
   layout_independent_tree fs fs' gt gt' hgt hgt' hv hv' hb hb' hc
+
+/-- C01_faithful, headers (`rgb { … }`, `hsv { … }`, `LIST { … }`): in `key op h { … }` the unquoted
+scalar `h` becomes the `Header` token of the container that follows; the rest of the document
+(fragment 3) is unaffected. -/
+theorem C01_faithful_header_partial (g0 : Bytes) (k : Scal) (g1 : Bytes) (o : Op) (gh : Bytes) (h : Scal)
+    (body : JVal) (rest : JFields) (gt : Bytes) (hgt : Blank gt)
+    (hv : JValidF (.consHdr g0 k g1 o gh h body rest) gt)
+    (hb : hasBom (jrenderF (.consHdr g0 k g1 o gh h body rest) ++ gt) = false) :
+    ∃ T, parse (jrenderF (.consHdr g0 k g1 o gh h body rest) ++ gt) = .ok T false ∧
+      T.map Tok.erase =
+        [(k.tok []).erase] ++ o.toks ++ ([.header ⟨0, h.bytes⟩] ++ ktapeV (kcontentV body) (0 + 1 + o.toks.length + 1)) ++
+          ktapeF (kcontentF rest) (0 + (1 + o.toks.length + (1 + kcntV (kcontentV body)))) := by
+  obtain ⟨T, h1, h2⟩ := faithful_tree _ gt hgt hv hb
+  exact ⟨T, h1, by rw [h2]; simp only [kcontentF, ktapeF, ktapeV, kcntV]⟩
+
+/-- C01_faithful, ghost `{}` at the start of a container: it leaves no trace — the document has
+the content (and so, up to positions, the tape) of the document without it. -/
+theorem C01_faithful_ghost_start_partial (g0 : Bytes) (k : Scal) (g1 : Bytes) (o : Op) (g b1 b2 : Bytes)
+    (v : JVal) (rest : JFields) (gt : Bytes) (hgt : Blank gt)
+    (hv : JValidF (.cons g0 k g1 o (.ghostIn g b1 b2 v) rest) gt)
+    (hb : hasBom (jrenderF (.cons g0 k g1 o (.ghostIn g b1 b2 v) rest) ++ gt) = false) :
+    ∃ T, parse (jrenderF (.cons g0 k g1 o (.ghostIn g b1 b2 v) rest) ++ gt) = .ok T false ∧
+      T.map Tok.erase = ktapeF (kcontentF (.cons g0 k g1 o v rest)) 0 :=
+  faithful_tree _ gt hgt hv hb
+
+/-- the hypotheses are satisfiable: `c=rgb{1 2} g={{} x}⏎` (a header, a ghost at the start). -/
+example : JValidF exampleHdr [10] ∧ Blank [10] ∧ hasBom (jrenderF exampleHdr ++ [10]) = false :=
+  exampleHdr_valid
+
+/-- C01_faithful, `@variables` and `@[…]`: wherever fragment 3 has a scalar (key, value, array
+element) it may be a variable `@name` or an interpolated expression `@[ … ]` (taken up to the
+first `]`, blanks and operators inside included); it becomes an `Unquoted` token carrying all
+its bytes. -/
+theorem C01_faithful_variables_partial (g0 : Bytes) (k : Scal) (g1 : Bytes) (o : Op) (g : Bytes) (s : Scal)
+    (rest : JFields) (gt : Bytes) (hgt : Blank gt) (hs : s.IsVar ∨ s.IsInterp)
+    (hv : JValidF (.cons g0 k g1 o (.scal g s) rest) gt)
+    (hb : hasBom (jrenderF (.cons g0 k g1 o (.scal g s) rest) ++ gt) = false) :
+    ∃ T, parse (jrenderF (.cons g0 k g1 o (.scal g s) rest) ++ gt) = .ok T false ∧
+      T.map Tok.erase =
+        [(k.tok []).erase] ++ o.toks ++ [.unquoted ⟨0, s.bytes⟩] ++
+          ktapeF (kcontentF rest) (0 + (1 + o.toks.length + 1)) := by
+  obtain ⟨T, h1, h2⟩ := faithful_tree _ gt hgt hv hb
+  have hq : s.quoted = false := by rcases hs with h | h <;> exact h.1
+  exact ⟨T, h1, by rw [h2]; simp [kcontentF, kcontentV, ktapeF, ktapeV, kcntV, Scal.tok, hq, Tok.erase]⟩
+
+/-- the hypotheses are satisfiable: `@x = @[1 + x] y=@x⏎`. -/
+example : JValidF exampleVar [10] ∧ Blank [10] ∧ hasBom (jrenderF exampleVar ++ [10]) = false :=
+  exampleVar_valid
+
+/-- C01_faithful, object→array mixed containers `{ key op value … m0 e1 e2 … }`: the container is
+an `Object` flagged mixed; a `MixedContainer` token stands where the bare list begins (in front of
+`m0`, which the parser first takes for a key); the list elements follow as scalars. -/
+theorem C01_faithful_mixed_partial (g0 : Bytes) (k : Scal) (g1 : Bytes) (o : Op)
+    (g g0' : Bytes) (k' : Scal) (g1' : Bytes) (o' : Op) (v : JVal) (fields : JFields) (gm : Bytes) (m0 : Scal)
+    (elems : List (Bytes × Scal)) (gc : Bytes) (rest : JFields) (gt : Bytes) (hgt : Blank gt)
+    (hv : JValidF (.cons g0 k g1 o (.mixed g g0' k' g1' o' v fields gm m0 elems gc) rest) gt)
+    (hb : hasBom (jrenderF (.cons g0 k g1 o (.mixed g g0' k' g1' o' v fields gm m0 elems gc) rest) ++ gt) = false) :
+    ∃ T, parse (jrenderF (.cons g0 k g1 o (.mixed g g0' k' g1' o' v fields gm m0 elems gc) rest) ++ gt) = .ok T false ∧
+      T.map Tok.erase =
+        ktapeF (.cons k o (.mixed (.cons k' o' (kcontentV v) (kcontentF fields)) (m0 :: elems.map (·.2)))
+          (kcontentF rest)) 0 :=
+  faithful_tree _ gt hgt hv hb
+
+/-- …where the tape of a mixed container is: `Object(end, mixed)`, its fields, `MixedContainer`,
+the bare scalars, `End`. -/
+example (fs : KFields) (vs : List Scal) (b : Nat) :
+    ktapeV (.mixed fs vs) b =
+      [.object (b + 1 + kcntF fs + 1 + vs.length) true] ++ ktapeF fs (b + 1) ++
+        [.mixedContainer] ++ vs.map (fun s => (s.tok []).erase) ++ [.endTok b] := by
+  simp only [ktapeV]
+
+/-- the hypotheses are satisfiable: `a={b=c d e}⏎`. -/
+example : JValidF exampleMixed [10] ∧ Blank [10] ∧ hasBom (jrenderF exampleMixed ++ [10]) = false :=
+  exampleMixed_valid
+
+/-- C01_faithful, parameter blocks in key position (top level or between the fields of a
+container): `[[name] value ]` / `[[!name] value ]` give `Parameter` / `UndefinedParameter` followed
+by the value; `[[name] key op value fields… ]` gives the parameter token followed by an object (its
+first key always read as an unquoted scalar) that the `]` closes. -/
+theorem C01_faithful_param_value_partial (g0 : Bytes) (isU : Bool) (name g1 : Bytes) (val : Scal) (g2 : Bytes)
+    (rest : JFields) (gt : Bytes) (hgt : Blank gt)
+    (hv : JValidF (.paramVal g0 isU name g1 val g2 rest) gt)
+    (hb : hasBom (jrenderF (.paramVal g0 isU name g1 val g2 rest) ++ gt) = false) :
+    ∃ T, parse (jrenderF (.paramVal g0 isU name g1 val g2 rest) ++ gt) = .ok T false ∧
+      T.map Tok.erase =
+        [paramTok isU ⟨0, name⟩, .unquoted ⟨0, val.bytes⟩] ++ ktapeF (kcontentF rest) (0 + 2) := by
+  obtain ⟨T, h1, h2⟩ := faithful_tree _ gt hgt hv hb
+  exact ⟨T, h1, by rw [h2]; simp only [kcontentF, ktapeF]⟩
+
+theorem C01_faithful_param_object_partial (g0 : Bytes) (isU : Bool) (name g1 : Bytes) (k : Scal) (g2 : Bytes)
+    (o : Op) (v : JVal) (inner : JFields) (gc : Bytes) (rest : JFields) (gt : Bytes) (hgt : Blank gt)
+    (hv : JValidF (.paramObj g0 isU name g1 k g2 o v inner gc rest) gt)
+    (hb : hasBom (jrenderF (.paramObj g0 isU name g1 k g2 o v inner gc rest) ++ gt) = false) :
+    ∃ T, parse (jrenderF (.paramObj g0 isU name g1 k g2 o v inner gc rest) ++ gt) = .ok T false ∧
+      T.map Tok.erase =
+        ktapeF (.paramObj isU name (.cons ⟨false, k.bytes⟩ o (kcontentV v) (kcontentF inner)) (kcontentF rest)) 0 :=
+  faithful_tree _ gt hgt hv hb
+
+/-- …where the tape of a parameter block in object form is: the parameter token, `Object(end)`,
+the fields, `End`. -/
+example (isU : Bool) (name : Bytes) (fs rest : KFields) (b : Nat) :
+    ktapeF (.paramObj isU name fs rest) b =
+      [paramTok isU ⟨0, name⟩, .object (b + 2 + kcntF fs) false] ++ ktapeF fs (b + 2) ++
+        [.endTok (b + 1)] ++ ktapeF rest (b + (3 + kcntF fs)) := by
+  simp only [ktapeF]
+
+/-- the hypotheses are satisfiable: `[[x] a=b c=d ] [[!y] v ] e=f⏎`. -/
+example : JValidF exampleParam [10] ∧ Blank [10] ∧ hasBom (jrenderF exampleParam ++ [10]) = false :=
+  exampleParam_valid
+
+/-- C01_faithful, BOM in front of a structured document: same tape (positions included, since the
+model records them relative to the end of the input), BOM flag set. -/
+theorem C01_faithful_bom_partial (fs : JFields) (gt : Bytes) (hgt : Blank gt) (hv : JValidF fs gt)
+    (hb : hasBom (jrenderF fs ++ gt) = false) :
+    parse (0xef :: 0xbb :: 0xbf :: (jrenderF fs ++ gt)) = .ok (jtapeF fs 0 gt) true :=
+  parse_tree_bom fs gt hgt hv hb
 
 /-- the hypotheses are satisfiable: `a={1 {b=c} {}} d={{x}}⏎`. -/
 example : JValidF exampleTree [10] ∧ Blank [10] ∧ hasBom (jrenderF exampleTree ++ [10]) = false :=
